@@ -20,7 +20,7 @@ ASSUMPTIONS = [
 	'constructs with a confirmed C01 defect are excluded by construction',
 ]
 BUDGET = {
-	'quick': {'seconds': 60, 'sessions': 6, 'shards': 16},
+	'quick': {'seconds': 90, 'sessions': 6, 'shards': 16},
 	'thorough': {'seconds': 560, 'sessions': 400, 'shards': 16},
 }
 
@@ -256,7 +256,7 @@ def shard(ctx: core.Ctx) -> None:
 
 	def body(case: dict) -> None:
 		counter[0] += 1
-		seeds = ('0', '1', '12345') if counter[0] % 4 == 1 else ('0',)
+		seeds = ('0', '1', '12345') if counter[0] % 4 == 2 else ('0',)
 		fails, info = judge(ctx.scratch, case, seeds)
 		if fails and fails[0][0] == 'OUT':
 			ctx.discard(fails[0][1])
